@@ -7,7 +7,7 @@
    the local table of the procedure ENTRY named like the declaration that contains the corrected
    cursor position - in particular no name local to another procedure is ever proposed; (2) the
    proposed procedures are none or exactly the procedure entries of the global table; (3) the
-   proposed types are none, `int`, or exactly the type entries of the global table; (4) outside
+   proposed types are none or exactly the type entries of the global table; (4) outside
    every declaration the answer is the declaration starters, with the main snippet iff `main` is
    not a procedure of the table.
    (5) under the executable tree well-formedness predicate [compl_wf_b] the handler never panics.
@@ -36,14 +36,16 @@
        `else` starters in front) at the statement positions of blocks nested at any depth in a
        top-level statement (through blocks, `if` branches, `while` bodies).  Not covered: the start of a
        branch / loop body that is not a block (known finding C16-branch-statement-start).
-   (T) [C16_type_position_valid]: the gap behind any `:` of a procedure declaration (parameter or local
-       variable): exactly one STRUCT item per type entry of G: `int` and ALL declared types - also the
-       types declared further down in the text (the handler consults the final table).
+   (T) [C16_type_position_valid]: the gap behind any `:` or `of` of a procedure declaration (parameter or
+       local variable): exactly one STRUCT item per type entry of G: `int` and ALL declared types - also
+       the types declared further down in the text (the handler consults the final table).
+       [C16_proc_of_position] is the `of` half on its own.
    [C16_type_decl_position]: inside a TYPE declaration the answer depends on the kind of tprev only:
-       behind `of` the array starters and all type entries of G; behind `]` the keyword `of`; behind `=`
-       the array starters and `int` - NO declared type (finding C16-type-decl-equals, see below);
-   [C16_proc_of_position]: behind an `of` inside a procedure declaration (`a: array [2] of |`) the
-       answer is null (finding C16-proc-array-of).
+       behind `=` and behind `of` the array starters and all type entries of G; behind `]` the keyword
+       `of`; otherwise null.
+       The model follows /repo f933470, which REPAIRED the two findings these theorems exposed at the
+       pinned commit: C16-type-decl-equals (behind `=` only `int` was offered, no declared type) and
+       C16-proc-array-of (behind an `of` inside a procedure declaration the answer was null).
    (G) [C16_toplevel_position_valid], [C16_toplevel_start_valid]: the gap behind the last token of a global
        declaration (in front of the next declaration or of the end of the text) and the white space in
        front of the first token of the text (cursor not at index 0: known finding C16-text-start): exactly
@@ -219,7 +221,7 @@ Theorem C16_nested_statement_position_valid : forall (p : aprog) (G : gtable) (t
 Proof. exact propose_nested_statement_position. Qed.
 Print Assumptions C16_nested_statement_position_valid.
 
-(* (T) type position: behind ANY `:` token of a procedure declaration *)
+(* (T) type position: behind ANY `:` or `of` token of a procedure declaration *)
 Theorem C16_type_position_valid : forall (p : aprog) (G : gtable) (t : text) (toks : list token) (d : doc),
   prog_ok p = true -> well_typed (expected p) G ->
   lex t = Some toks -> map tk toks = flatten p ++ [Eof] -> new_doc_res t = ODone d ->
@@ -228,7 +230,7 @@ Theorem C16_type_position_valid : forall (p : aprog) (G : gtable) (t : text) (to
     let D := length (flat_map fl_decl l1) in
     forall k tprev tnext line col,
       (D <= k)%nat -> (S k < D + length (fl_decl (DProc c1 c2 x c3 ps c4 c5 vs b c6)))%nat ->
-      nth_error toks k = Some tprev -> tk tprev = Colon -> nth_error toks (S k) = Some tnext ->
+      nth_error toks k = Some tprev -> tk tprev = Colon \/ tk tprev = KOf -> nth_error toks (S k) = Some tnext ->
       (te tprev < get_insertion_index line col t)%N -> (get_insertion_index line col t <= ts tnext)%N ->
       propose d line col = ROk (Some (search_types G)).
 Proof. exact propose_type_position. Qed.
@@ -247,15 +249,14 @@ Theorem C16_type_decl_position : forall (p : aprog) (G : gtable) (t : text) (tok
       (te tprev < get_insertion_index line col t)%N -> (get_insertion_index line col t <= ts tnext)%N ->
       propose d line col =
         ROk (match tk tprev with
-             | EqT => Some [snip_array; item_array; item_int]
              | RBracket => Some [item_of]
-             | KOf => Some ([snip_array; item_array] ++ search_types G)
+             | EqT | KOf => Some ([snip_array; item_array] ++ search_types G)
              | _ => None
              end).
 Proof. exact propose_type_decl_position. Qed.
 Print Assumptions C16_type_decl_position.
 
-(* behind an `of` of a parameter / variable declaration the answer is null *)
+(* behind an `of` of a parameter / variable declaration: all types (null before /repo f933470) *)
 Theorem C16_proc_of_position : forall (p : aprog) (G : gtable) (t : text) (toks : list token) (d : doc),
   prog_ok p = true -> well_typed (expected p) G ->
   lex t = Some toks -> map tk toks = flatten p ++ [Eof] -> new_doc_res t = ODone d ->
@@ -266,7 +267,7 @@ Theorem C16_proc_of_position : forall (p : aprog) (G : gtable) (t : text) (toks 
       (D <= k)%nat -> (S k < D + length (fl_decl (DProc c1 c2 x c3 ps c4 c5 vs b c6)))%nat ->
       nth_error toks k = Some tprev -> tk tprev = KOf -> nth_error toks (S k) = Some tnext ->
       (te tprev < get_insertion_index line col t)%N -> (get_insertion_index line col t <= ts tnext)%N ->
-      propose d line col = ROk None.
+      propose d line col = ROk (Some (search_types G)).
 Proof. exact propose_proc_of_position. Qed.
 Print Assumptions C16_proc_of_position.
 
@@ -297,21 +298,22 @@ Print Assumptions C16_toplevel_start_valid.
      type v = array [2] of int;
      proc p(ref a: v, n: int) { var i: int; i := n; while (i < 2) { a[i] := i; i := i + 1; } }
      proc main() { }
-   tokens 0-9 the type declaration, 10-53 the procedure p (10-22 its head), 54-59 main. *)
+     proc q() { var w: array [2] of int; }
+   tokens 0-9 the type declaration, 10-53 the procedure p (10-22 its head), 54-59 main, 60-75 q. *)
 Definition c16_tok (k : kind) (s e : N) : token := {| tk := k; ts := s; te := e; terr := [] |}.
 
 Example C16_valid_examples :
   match lex cx_text, new_doc_res cx_text with
   | Some toks, ODone d =>
-      (* (S) 1:47 = index 74, the gap between `i := n;` and `while`: a, n, i and all 12 procedures, no `var` *)
+      (* (S) 1:47 = index 74, the gap between `i := n;` and `while`: a, n, i and all 13 procedures, no `var` *)
       (forall line col, get_insertion_index line col cx_text = 74%N ->
-         exists items, propose d line col = ROk (Some items) /\ length items = 19%nat /\
+         exists items, propose d line col = ROk (Some items) /\ length items = 20%nat /\
            map it_label (filter is_var items) = [sx_a; sx_n; sx_i] /\
            map it_label (filter is_fun items) = map fst (filter (fun kv => is_proc_entry (snd kv)) cx_table) /\
            filter is_struct items = [])
       (* (S) 1:27 = index 54, the gap between `{` and `var`: the same with the `var` starters in front *)
       /\ (forall line col, get_insertion_index line col cx_text = 54%N ->
-         exists items, propose d line col = ROk (Some (snip_var :: item_var :: items)) /\ length items = 19%nat /\
+         exists items, propose d line col = ROk (Some (snip_var :: item_var :: items)) /\ length items = 20%nat /\
            map it_label (filter is_var items) = [sx_a; sx_n; sx_i])
       (* (S') 1:74 = index 101, inside the block of the loop, between `a[i] := i;` and `i := i + 1;` *)
       /\ (forall line col, get_insertion_index line col cx_text = 101%N ->
@@ -322,11 +324,14 @@ Example C16_valid_examples :
       (* (T) 1:20 = index 47 behind the `:` of the parameter n, 1:34 = index 61 behind the `:` of the variable i *)
       /\ (forall line col, get_insertion_index line col cx_text = 47%N \/ get_insertion_index line col cx_text = 61%N ->
          exists items, propose d line col = ROk (Some items) /\ map it_label items = [s_int; sx_v])
-      (* type declaration, 0:22 behind `of`: array starters, int, v;  0:9 behind `=`: array starters and int only *)
+      (* (T) 3:31 = index 164 behind the `of` of the variable w of q *)
+      /\ (forall line col, get_insertion_index line col cx_text = 164%N ->
+         exists items, propose d line col = ROk (Some items) /\ map it_label items = [s_int; sx_v])
+      (* type declaration, 0:22 behind `of` and 0:9 behind `=`: array starters, int, v *)
       /\ (forall line col, get_insertion_index line col cx_text = 22%N ->
          exists items, propose d line col = ROk (Some (snip_array :: item_array :: items)) /\ map it_label items = [s_int; sx_v])
       /\ (forall line col, get_insertion_index line col cx_text = 9%N ->
-         propose d line col = ROk (Some [snip_array; item_array; item_int]))
+         exists items, propose d line col = ROk (Some (snip_array :: item_array :: items)) /\ map it_label items = [s_int; sx_v])
       (* (G) 2:0 = index 117, behind the line break that follows the `}` of p *)
       /\ (forall line col, get_insertion_index line col cx_text = 117%N ->
          propose d line col = ROk (Some [snip_proc; snip_type; item_proc; item_type]))
@@ -342,7 +347,7 @@ Proof.
   repeat split.
   - intros line col Hi.
     destruct (C16_statement_position_valid cx_p cx_table cx_text toks d Hok cx_well_typed El Hl Ed
-                [cx_type] cx0 cx0 sx_p cx0 cx_params cx0 cx0 [cx_var] [] (SCons cx_assign SNil) (SCons cx_while SNil) cx0 [cx_main]
+                [cx_type] cx0 cx0 sx_p cx0 cx_params cx0 cx0 [cx_var] [] (SCons cx_assign SNil) (SCons cx_while SNil) cx0 [cx_main; cx_q]
                 eq_refl (or_introl eq_refl) (c16_tok Semic 72 73) (c16_tok KWhile 74 79) line col
                 ltac:(rewrite Et; reflexivity) ltac:(rewrite Et; reflexivity)
                 ltac:(rewrite Hi; reflexivity) ltac:(rewrite Hi; vm_compute; discriminate))
@@ -351,7 +356,7 @@ Proof.
     split; [rewrite Hitems; reflexivity|]. rewrite Fv, Ff, Fs. repeat split; reflexivity.
   - intros line col Hi.
     destruct (C16_statement_position_valid cx_p cx_table cx_text toks d Hok cx_well_typed El Hl Ed
-                [cx_type] cx0 cx0 sx_p cx0 cx_params cx0 cx0 [] [cx_var] SNil (SCons cx_assign (SCons cx_while SNil)) cx0 [cx_main]
+                [cx_type] cx0 cx0 sx_p cx0 cx_params cx0 cx0 [] [cx_var] SNil (SCons cx_assign (SCons cx_while SNil)) cx0 [cx_main; cx_q]
                 eq_refl (or_intror eq_refl) (c16_tok LCurly 52 53) (c16_tok KVar 54 57) line col
                 ltac:(rewrite Et; reflexivity) ltac:(rewrite Et; reflexivity)
                 ltac:(rewrite Hi; reflexivity) ltac:(rewrite Hi; vm_compute; discriminate))
@@ -359,7 +364,7 @@ Proof.
     vm_compute in Hlk. injection Hlk as <-. rewrite Hp, Hitems. eexists. split; [reflexivity|]. split; reflexivity.
   - intros line col Hi.
     destruct (C16_nested_statement_position_valid cx_p cx_table cx_text toks d Hok cx_well_typed El Hl Ed
-                [cx_type] cx0 cx0 sx_p cx0 cx_params cx0 cx0 [cx_var] (SCons cx_assign SNil) cx_while SNil cx0 [cx_main] 14%nat
+                [cx_type] cx0 cx0 sx_p cx0 cx_params cx0 cx0 [cx_var] (SCons cx_assign SNil) cx_while SNil cx0 [cx_main; cx_q] 14%nat
                 eq_refl
                 (SG_whl cx0 cx0 _ cx0 _ _
                    (SG_here cx0 (SCons (SAsg (AIndex (cx_nm sx_a) cx0 (cx_ef (FVar (cx_nm sx_i))) cx0) cx0 (cx_ef (FVar (cx_nm sx_i))) cx0) SNil)
@@ -373,35 +378,43 @@ Proof.
   - intros line col [Hi|Hi].
     + exists (search_types cx_table). split; [|reflexivity].
       apply (C16_type_position_valid cx_p cx_table cx_text toks d Hok cx_well_typed El Hl Ed
-               [cx_type] cx0 cx0 sx_p cx0 cx_params cx0 cx0 [cx_var] (SCons cx_assign (SCons cx_while SNil)) cx0 [cx_main]
+               [cx_type] cx0 cx0 sx_p cx0 cx_params cx0 cx0 [cx_var] (SCons cx_assign (SCons cx_while SNil)) cx0 [cx_main; cx_q]
                eq_refl 19%nat (c16_tok Colon 45 46) (c16_tok (Ident s_int) 47 50) line col
                ltac:(apply Nat.leb_le; reflexivity) ltac:(apply Nat.ltb_lt; reflexivity)
-               ltac:(rewrite Et; reflexivity) eq_refl ltac:(rewrite Et; reflexivity)
+               ltac:(rewrite Et; reflexivity) (or_introl eq_refl) ltac:(rewrite Et; reflexivity)
                ltac:(rewrite Hi; reflexivity) ltac:(rewrite Hi; vm_compute; discriminate)).
     + exists (search_types cx_table). split; [|reflexivity].
       apply (C16_type_position_valid cx_p cx_table cx_text toks d Hok cx_well_typed El Hl Ed
-               [cx_type] cx0 cx0 sx_p cx0 cx_params cx0 cx0 [cx_var] (SCons cx_assign (SCons cx_while SNil)) cx0 [cx_main]
+               [cx_type] cx0 cx0 sx_p cx0 cx_params cx0 cx0 [cx_var] (SCons cx_assign (SCons cx_while SNil)) cx0 [cx_main; cx_q]
                eq_refl 25%nat (c16_tok Colon 59 60) (c16_tok (Ident s_int) 61 64) line col
                ltac:(apply Nat.leb_le; reflexivity) ltac:(apply Nat.ltb_lt; reflexivity)
-               ltac:(rewrite Et; reflexivity) eq_refl ltac:(rewrite Et; reflexivity)
+               ltac:(rewrite Et; reflexivity) (or_introl eq_refl) ltac:(rewrite Et; reflexivity)
                ltac:(rewrite Hi; reflexivity) ltac:(rewrite Hi; vm_compute; discriminate)).
   - intros line col Hi. exists (search_types cx_table). split; [|reflexivity].
+    apply (C16_type_position_valid cx_p cx_table cx_text toks d Hok cx_well_typed El Hl Ed
+             [cx_type; DProc cx0 cx0 sx_p cx0 cx_params cx0 cx0 [cx_var] (SCons cx_assign (SCons cx_while SNil)) cx0; cx_main]
+             cx0 cx0 sx_q cx0 None cx0 cx0 [cx_wvar] SNil cx0 []
+             eq_refl 72%nat (c16_tok KOf 161 163) (c16_tok (Ident s_int) 164 167) line col
+             ltac:(apply Nat.leb_le; reflexivity) ltac:(apply Nat.ltb_lt; reflexivity)
+             ltac:(rewrite Et; reflexivity) (or_intror eq_refl) ltac:(rewrite Et; reflexivity)
+             ltac:(rewrite Hi; reflexivity) ltac:(rewrite Hi; vm_compute; discriminate)).
+  - intros line col Hi. exists (search_types cx_table). split; [|reflexivity].
     rewrite (C16_type_decl_position cx_p cx_table cx_text toks d Hok cx_well_typed El Hl Ed
-               [] cx0 cx0 sx_v cx0 (TArr cx0 cx0 cx0 (LDec 2) cx0 cx0 (TName cx0 s_int)) cx0 [_; cx_main]
+               [] cx0 cx0 sx_v cx0 (TArr cx0 cx0 cx0 (LDec 2) cx0 cx0 (TName cx0 s_int)) cx0 [_; cx_main; cx_q]
                eq_refl 7%nat (c16_tok KOf 19 21) (c16_tok (Ident s_int) 22 25) line col
                ltac:(apply Nat.leb_le; reflexivity) ltac:(apply Nat.ltb_lt; reflexivity)
                ltac:(rewrite Et; reflexivity) ltac:(rewrite Et; reflexivity)
                ltac:(rewrite Hi; reflexivity) ltac:(rewrite Hi; vm_compute; discriminate)); reflexivity.
-  - intros line col Hi.
+  - intros line col Hi. exists (search_types cx_table). split; [|reflexivity].
     rewrite (C16_type_decl_position cx_p cx_table cx_text toks d Hok cx_well_typed El Hl Ed
-               [] cx0 cx0 sx_v cx0 (TArr cx0 cx0 cx0 (LDec 2) cx0 cx0 (TName cx0 s_int)) cx0 [_; cx_main]
+               [] cx0 cx0 sx_v cx0 (TArr cx0 cx0 cx0 (LDec 2) cx0 cx0 (TName cx0 s_int)) cx0 [_; cx_main; cx_q]
                eq_refl 2%nat (c16_tok EqT 7 8) (c16_tok KArray 9 14) line col
                ltac:(apply Nat.leb_le; reflexivity) ltac:(apply Nat.ltb_lt; reflexivity)
                ltac:(rewrite Et; reflexivity) ltac:(rewrite Et; reflexivity)
                ltac:(rewrite Hi; reflexivity) ltac:(rewrite Hi; vm_compute; discriminate)); reflexivity.
   - intros line col Hi.
     apply (C16_toplevel_position_valid cx_p cx_table cx_text toks d Hok cx_well_typed El Hl Ed
-             [cx_type; DProc cx0 cx0 sx_p cx0 cx_params cx0 cx0 [cx_var] (SCons cx_assign (SCons cx_while SNil)) cx0] [cx_main]
+             [cx_type; DProc cx0 cx0 sx_p cx0 cx_params cx0 cx0 [cx_var] (SCons cx_assign (SCons cx_while SNil)) cx0] [cx_main; cx_q]
              eq_refl (c16_tok RCurly 115 116) (c16_tok KProc 117 121) line col
              ltac:(apply Nat.leb_le; reflexivity) ltac:(rewrite Et; reflexivity) ltac:(rewrite Et; reflexivity)
              ltac:(rewrite Hi; reflexivity) ltac:(rewrite Hi; vm_compute; discriminate)).
@@ -421,7 +434,9 @@ Example C16_valid_examples_eval :
   let vars l := option_map (fun l => map fst (filter (fun x => (snd x =? 6)%N) l)) l in
   let nfun l := option_map (fun l => length (filter (fun x => (snd x =? 3)%N) l)) l in
   map (fun c => (vars (cx_answer 1 c), nfun (cx_answer 1 c))) [27; 39; 47; 74; 87; 88]%N
-  = [(Some [sx_a; sx_n; sx_i], Some 12%nat); (Some [sx_a; sx_n; sx_i], Some 12%nat); (Some [sx_a; sx_n; sx_i], Some 12%nat);
-     (Some [sx_a; sx_n; sx_i], Some 12%nat); (Some [sx_a; sx_n; sx_i], Some 12%nat); (Some [sx_a; sx_n; sx_i], Some 12%nat)]
-  /\ map (fun c => option_map (map fst) (cx_answer 1 c)) [14; 20; 34]%N = [Some [s_int; sx_v]; Some [s_int; sx_v]; Some [s_int; sx_v]].
-Proof. vm_compute. split; reflexivity. Qed.
+  = [(Some [sx_a; sx_n; sx_i], Some 13%nat); (Some [sx_a; sx_n; sx_i], Some 13%nat); (Some [sx_a; sx_n; sx_i], Some 13%nat);
+     (Some [sx_a; sx_n; sx_i], Some 13%nat); (Some [sx_a; sx_n; sx_i], Some 13%nat); (Some [sx_a; sx_n; sx_i], Some 13%nat)]
+  /\ map (fun c => option_map (map fst) (cx_answer 1 c)) [14; 20; 34]%N = [Some [s_int; sx_v]; Some [s_int; sx_v]; Some [s_int; sx_v]]
+  /\ option_map (map fst) (cx_answer 3 31) = Some [s_int; sx_v]
+  /\ map (fun c => option_map (map snd) (cx_answer 0 c)) [9; 22]%N = [Some [15; 14; 22; 22]; Some [15; 14; 22; 22]]%N.
+Proof. vm_compute. repeat split; reflexivity. Qed.
